@@ -18,13 +18,14 @@ Proof. exact src_contains_rot. Qed.
 Print Assumptions C15_src_contains_rot.
 
 (* a slice of a circular record is a plain SeqRecord carrying the ordinary string slice (Python's
-   index normalisation included); its topology annotation, when present, reads "linear" *)
+   index normalisation included) and no topology annotation: of the annotations only "molecule_type"
+   survives Biopython's slice *)
 Theorem C15_src_slice : forall rec lo hi,
   pr_kind rec = KCircularRecord ->
   exists r, CircularRecord_getitem_slice rec (lo, hi) = Ok r
     /\ pr_kind r = KSeqRecord
     /\ pr_seq r = py_slice (pr_seq rec) lo hi
-    /\ pr_annotations r = match pr_annotations rec with Some _ => Some "linear"%string | None => None end.
+    /\ pr_annotations r = ann_sliced (pr_annotations rec).
 Proof. exact CircularRecord_getitem_slice_eq. Qed.
 Print Assumptions C15_src_slice.
 
@@ -38,15 +39,15 @@ Print Assumptions C15_src_add.
 
 (* CircularRecord(record), as translated from __init__: a record whose topology annotation is
    not "circular" (in any letter case) is refused with ValueError; otherwise the result is a
-   CircularRecord with the same sequence, identity, features, annotation and tracks (values are
+   CircularRecord with the same sequence, identity, name, features, annotations and tracks (values are
    immutable in the model: a copy) *)
 Theorem C15_src_constructor : forall r,
   CircularRecord_new r =
-  match pr_annotations r with
+  match an_topology (pr_annotations r) with
   | Some t => if String.eqb (str_lower t) "circular"
-              then Ok (PR KCircularRecord (pr_seq r) (pr_id r) (pr_features r) (pr_annotations r) (pr_letter_annotations r))
+              then Ok (PR KCircularRecord (pr_seq r) (pr_id r) (pr_features r) (pr_annotations r) (pr_letter_annotations r) (pr_name r))
               else Err XValueError
-  | None => Ok (PR KCircularRecord (pr_seq r) (pr_id r) (pr_features r) None (pr_letter_annotations r))
+  | None => Ok (PR KCircularRecord (pr_seq r) (pr_id r) (pr_features r) (pr_annotations r) (pr_letter_annotations r) (pr_name r))
   end.
 Proof. exact CircularRecord_new_eq. Qed.
 Print Assumptions C15_src_constructor.
